@@ -20,7 +20,7 @@ package fp
 //@ ensures result == fp_neg(fp_one)
 
 //@ func BatchInvert
-//@ props C19
+//@ props C07 C11
 //@ prelude field
 //@ ensures fresh(result) && len(result) == len(a)
 //@ ensures forall k int :: 0 <= k && k < len(a) ==> result[k] == fp_inv(a[k])
@@ -31,3 +31,8 @@ package fp
 //@ prelude field curve
 //@ ensures result == nil <==> !fp_issquare(*x)
 //@ ensures result != nil ==> fresh(result) && (*result) * (*result) == *x
+
+//@ func BytesLE
+//@ props C11
+//@ prelude field bytesint
+//@ ensures fresh(result) && len(result) == 32 && LEb(result) == fp_to_int(a)
